@@ -229,7 +229,7 @@ def run(ctx, replay=None):
     info = record(ctx, ["--mode", "random", "--n", 2000 if quick else 40000, "--len", 40], "rand")
     judge(ctx, tla, info, "random history")
     files += info["files"]
-    info = record(ctx, ["--mode", "bulk", "--n", 2500 if quick else 6000, "--rounds", 3 if quick else 5], "bulk")
+    info = record(ctx, ["--mode", "bulk", "--n", 2500 if quick else 6000, "--rounds", 3 if quick else 5, "--deep", 17000 if quick else 60000, "--deepmixed", 0 if quick else 1], "bulk")
     judge(ctx, tla, info, "bulk history (thousands of pending items)", module="Trace_DequeLinear")
     files += info["files"]
     ctx.cov["distinct_nontrivial"] = count_distinct(files)
